@@ -1,5 +1,5 @@
 #!/bin/sh
 # every seeded change against the check of its own property (quick, seed 0): one line each
-for d in seeded/C*-[12]; do
+for d in seeded/C*-[123]; do
   python3 tools/run_seeded.py $d 2>&1 | tail -1 | cut -c1-200 | sed "s|^|$d |"
 done
